@@ -42,7 +42,7 @@ def _props():
         "C17": {
             "engine": aggsim.execute, "gen": plans.plan_c17, "level": "fault_enumeration",
             "clauses": ["header_once", "exactly_once", "row_intact", "finished_skipped", "unfinished_redone", "no_exception", "no_deadlock"],
-            "quick": 2000, "thorough": 60000, "sweeps_quick": 32, "sweeps_thorough": 3000,
+            "quick": 1500, "thorough": 60000, "sweeps_quick": 24, "sweeps_thorough": 3000,
             "required_probes": ["kill", "interrupt", "restart_on_absent", "restart_on_empty", "restart_on_header", "restart_on_rows", "restart_with_stale_claims",
                                 "skipped_finished", "evaluated_unfinished", "sweep_crash_points"],
         },
